@@ -1,20 +1,21 @@
-"""C01 native oracle: generated charts on the real HsmEventProcessor against reference UML semantics."""
+"""C01 native oracle: generated charts on the real HsmEventProcessor against reference UML semantics
+(with is_in / child_state queries between steps where the idle invariant is concerned)."""
 from replay.common import main
 from replay import charts
 
-ASPECTS = {'C01': ('actions', 'state'), 'C02': ('offers', 'state', 'actions', 'ignored'), 'C03': ('actions', 'state')}['C01']
+ASPECTS = {'C01': ('actions', 'state'), 'C02': ('offers', 'state', 'actions', 'ignored'), 'C03': ('actions', 'state'),
+           'C22': ('actions', 'state', 'offers')}['C01']
 
 
 def scenarios(seed, tier, failed):
-    for sc in charts.standard_scenarios(seed, tier):
+    for sc in charts.standard_scenarios(seed, tier, with_queries=('C01' != 'C03')):
         if 'C01' == 'C03':
             sc['events'] = []
         yield sc
 
 
 def run(sc):
-    res = charts.run_chart(sc)
-    ok, detail, key = charts.check_uml(sc, res, ASPECTS)
+    ok, detail, key = charts.run_and_check(sc, ASPECTS)
     if 'C01' == 'C03' and key == 'dispatch':
         return True, ''
     if 'C01' in ('C01', 'C02') and key == 'start_at':
